@@ -39,10 +39,10 @@ impl ReadableStorageTraits for OpendalStore {
             let reader = handle_result(self.operator.reader(key.as_str()))?;
             let mut bytes = Vec::with_capacity(byte_ranges.len());
             for byte_range in byte_ranges {
-                let byte_range_opendal = byte_range.to_range(size);
-                if byte_range_opendal.end > size {
+                if !byte_range.is_valid(size) {
                     return Err(InvalidByteRangeError::new(*byte_range, size).into());
                 }
+                let byte_range_opendal = byte_range.to_range(size);
                 bytes.push(handle_result(reader.read(byte_range_opendal))?.to_bytes());
             }
             Ok(Some(bytes))
